@@ -513,7 +513,11 @@ class Model:
         elif ch == "~":
             if A.arity >= 2:
                 if len(fr.stack) < A.arity:
-                    raise Skip("~:short-stack")
+                    # the arguments are popped like any other (one implicit read per missing
+                    # argument, in order) and put back: the values read end up below what was there
+                    missing = A.arity - len(fr.stack)
+                    reads = [self.read_input(False) for _ in range(missing)]
+                    fr.stack[:0] = reads[::-1]
                 args = fr.stack[-A.arity:]
                 self.push(fr, self.call_fn(A, [copy_value(a) if not isinstance(a, Fn) else a for a in args]))
             elif A.arity == 1:
